@@ -147,7 +147,7 @@ DATA = {
     "num": D("1", "num", "1"), "num2": D("-2.5e3", "num", "-2.5e3"), "chr": D("ABC", "chr", "ABC"),
     "str": D("'a;b'", "str", "a;b"), "str2": D('"x,""y"', "str", 'x,""y'), "blk": D("#13a;b", "blk", "a;b"),
     "expr": D("(1,2)", "expr", "1,2"), "hex": D("#HFF", "hex", "255"), "numsuf": D("10 V", "numsuf", "10", "V"),
-    "oct": D("#Q17", "hex", "15"), "blk0": D("#10", "blk", ""),
+    "oct": D("#Q17", "hex", "15"), "blk0": D("#10", "blk", ""), "dot": D(".5", "num", ".5"), "dot2": D("-.25e3", "num", "-.25e3"),
 }
 
 
@@ -159,17 +159,17 @@ def module(name, ft, cands, defs, first, nxt):
             + "\n".join(defs) + f"\nC_First == {first}\nC_Next == {nxt}\n====\n")
 
 
-def cfg(maxunits, endings, caps, emit=True):
+def cfg(maxunits, endings, caps, emit=True, lexagrees=True):
     return ("SPECIFICATION Spec\nCONSTANTS\n  Tree <- C_Tree\n  MCands <- C_Cands\n  TwinAll = FALSE\n  Cands <- C_Cands\n  FirstUnits <- C_First\n  NextUnits <- C_Next\n"
             f"  MaxUnits = {maxunits}\n  Endings <- C_Endings\n  Caps <- C_Caps\n  Emit = {'TRUE' if emit else 'FALSE'}\n"
-            "INVARIANTS EmitCase Order CurIsBranch Twin OwnData Framing Valid\nPROPERTIES Frozen\n"), \
+            "INVARIANTS EmitCase Order CurIsBranch Twin OwnData Framing Valid" + (" LexAgrees" if lexagrees else "") + "\nPROPERTIES Frozen\n"), \
            [f"C_Endings == {{{', '.join(tla_bytes(e) for e in endings)}}}", f"C_Caps == {{{', '.join(map(str, caps))}}}"]
 
 
 def run_projection(chk, prop, pname, ft, cands, defs, first, nxt, maxunits, endings, caps, extra_args=(), workers=8):
     wd = os.path.join(WORK, f"{prop}-exec")
     os.makedirs(wd, exist_ok=True)
-    c, d2 = cfg(maxunits, endings, caps)
+    c, d2 = cfg(maxunits, endings, caps, lexagrees=(prop != "C02"))
     modname = f"MCExec_{prop}_{pname}".replace("-", "_")
     text = module(modname, ft, cands, defs + d2, first, nxt)
     raw = os.path.join(wd, f"{pname}.raw")
@@ -253,7 +253,8 @@ def run_c02(chk, tier, seed):
     chk.assumptions += ["trees are SCPI-valid (ValidTree checked by TLC for every library tree); library of %d trees" % len(TREES)]
 
 
-SMALL = T(L("*OPC"), L("A"), L("Bq"), B("GRP", L("X"), L("Y", d=True)))   # tree for C05/C06/C10/C11
+SMALL = T(L("*OPC"), L("A"), L("Bq"), B("GRP", L("X"), L("Y", d=True)),
+          B("SENS", B("VOLT", L("DC", d=True), L("AC"), d=True), L("CURR")))   # tree for C05/C06/C10/C11
 ENDINGS = ["", "\n", " ", " \n", ";", ";\n", "; "]
 
 
@@ -268,12 +269,15 @@ def fault_units():
     faults = []
     for code, ext in [(-100, 0), (-200, 0), (-222, 0), (-300, 0), (-400, 0), (5, 0), (-113, 0), (-310, 1)]:
         faults.append(U(["A"], h=H(res=(code, ext))))
+    # a handler failing with -113 itself, next to a default branch that could "explain" the header
+    faults.append(U(["SENS", "CURR"], h=H(res=(-113, 0))))
+    faults.append(U(["SENS", "CURR"], query=True, h=H(res=(-113, 1))))
     faults.append(U(["Bq"], query=True, h=H(res=(-221, 2), items=("12",), partial=True)))     # error after a partial response
     faults.append(U(["Bq"], query=True, h=H(res=(-230, 0))))
-    for raw in ["A$", "A::X", "1A", "A,", ":;", "GRP:X:", "*OPC:A", "A\xff"]:
+    for raw in ["A::X", "A,", ":;", "GRP:X:", "*OPC:A", "A\xff", "ABCDEFGHIJKLM", ":1", "GRP:,X"]:
         faults.append(U(["A"], lex="hdr", raw=raw))
     # lexical fault in data the handler pulls / does not pull
-    for raw in ["A 1$", "A 'abc", "A #", "A 1,,2", "A (1", "A #H", "A 1e", "A ABCDEFGHIJKLM", "A \"x\"y"]:
+    for raw in ["A 1$", "A 'abc", "A #", "A 1,,2", "A #3999ab", "A #H", "A 1 2", "A ABCDEFGHIJKLM", "A \"x\"y", "A 1,", "A 1:2"]:
         faults.append(U(["A"], lex="data", raw=raw, h=H(pulls=["req"])))
         faults.append(U(["A"], lex="data", raw=raw, h=H()))
     faults.append(U(["ZZ"]))                       # undefined header
@@ -313,20 +317,22 @@ def run_c06(chk, tier, seed):
     ft = flatten(SMALL)
     cands = cands_for(SMALL, rich=False)
     dl = [[]] + [[k] for k in DATA] + [["num", "str"], ["str", "blk"], ["chr", "hex"], ["expr", "numsuf"], ["blk", "num"], ["str2", "chr"],
-                                       ["num", "chr", "str"], ["blk", "expr", "hex"]]
+                                       ["num", "chr", "str"], ["blk", "expr", "hex"], ["num", "dot"], ["str", "dot2", "dot"], ["expr", "num"], ["expr", "chr", "str"]]
     if th:
         dl += [[a, b] for a in DATA for b in DATA if a != b][:40]
     pulls = [p for n in range(0, 5 if th else 4) for p in itertools.product(["req", "opt"], repeat=n)]
-    units = []
+    units, small = [], []
     for d in dl:
         for p in pulls:
             units.append(U(["A"], data=[DATA[x] for x in d], h=H(pulls=list(p))))
+            if len(p) <= 2 and len(d) <= 2:
+                small.append(units[-1])
         units.append(U(["Bq"], query=True, data=[DATA[x] for x in d], h=H(pulls=["opt"] * len(d), items=("0",))))
     okq = [U(["Bq"], query=True, h=H(items=("7",))), U(["GRP", "X"], data=[DATA["chr"]], h=H(pulls=["req"]))]
-    defs = [f"Var == {set_of(units)}", f"Okq == {set_of(okq)}"]
+    defs = [f"Var == {set_of(units)}", f"Okq == {set_of(okq)}", f"VarSmall == {set_of(small)}"]
     # first / last position with every ending; middle position between two fixed units
     s1 = run_projection(chk, "C06", "first", ft, cands, defs, "Var", "Okq", 2, ["", "\n", " ", " \n", ";"], [-1])
-    s2 = run_projection(chk, "C06", "middle", ft, cands, defs + ["Mid == Var"], "Okq", "Var \\cup Okq", 3, [""], [-1])
+    s2 = run_projection(chk, "C06", "middle", ft, cands, defs, "Okq", ("Var" if th else "VarSmall") + " \\cup Okq", 3, [""], [-1])
     chk.cov["exhaustive"] = True
     chk.cov["rule"] = (f"units carrying {len(dl)} data lists (0..3 elements over all seven data types incl. separators inside strings/blocks) x {len(pulls)} pull sequences over required/optional, "
                        "in first, middle and last position and before every kind of message ending; handlers log the exact tokens they receive; non-trivial = failing or multi-unit")
